@@ -517,10 +517,117 @@ def extract_probes(emit):
     emit(f"def fmt_regex_aliases : Bool := {'true' if reached else 'false'}")
 
 
-SECTIONS = [("versions", extract_versions), ("formatters", extract_formatters), ("assets", extract_assets), ("probes", extract_probes)]
+def extract_escape(emit):
+    """utils.escape_fmt_group / unescape / bytes2str (C19): patterns by ast, re.escape's character set and the
+    entry points' treatment of bytes / wrong types by probing"""
+    import inspect
+    import re as _re
+    import fmtutil.utils as U
+    import fmtutil.formatter as F
+    import fmtutil.__version as V
+
+    tree = ast.parse(inspect.getsource(U))
+    fn = find_func(tree, "escape_fmt_group")
+    pats = [p for m, p in re_call_patterns(fn) if m == "finditer"]
+    if len(pats) != 1:
+        raise ExtractError("escape_fmt_group: placeholder pattern not found")
+    emit(f"def escape_group_re : List Char := {lean_str(pats[0])}")
+    tmpls = set()
+    for n in ast.walk(fn):
+        if isinstance(n, ast.JoinedStr):
+            parts = []
+            for v in n.values:
+                if isinstance(v, ast.Constant):
+                    parts.append(v.value)
+                else:
+                    spec = fstring_template(v.format_spec) if v.format_spec is not None else ""
+                    parts.append("\x00" + (spec or "") + "\x00")
+            if any("\x00" in q for q in parts):
+                tmpls.add("".join(parts))
+    if len(tmpls) != 1:
+        raise ExtractError(f"escape_fmt_group: sentinel template not found ({tmpls})")
+    t = tmpls.pop()
+    pre, spec, post = t.split("\x00")
+    m = _re.fullmatch(r"0(\d+)d", spec)
+    if not m:
+        raise ExtractError(f"escape_fmt_group: unexpected sentinel number format {spec!r}")
+    emit(f"def escape_sentinel_pre : List Char := {lean_str(pre)}")
+    emit(f"def escape_sentinel_post : List Char := {lean_str(post)}")
+    emit(f"def escape_sentinel_width : Nat := {int(m.group(1))}")
+    # enumerate(..., start=k)
+    start = None
+    for n in ast.walk(fn):
+        if isinstance(n, ast.Call) and isinstance(n.func, ast.Name) and n.func.id == "enumerate":
+            start = 0
+            for kw in n.keywords:
+                if kw.arg == "start" and isinstance(kw.value, ast.Constant):
+                    start = kw.value.value
+    if start is None:
+        raise ExtractError("escape_fmt_group: enumerate not found")
+    emit(f"def escape_sentinel_start : Nat := {start}")
+    uses_re_escape = any(isinstance(n, ast.Call) and isinstance(n.func, ast.Attribute) and n.func.attr == "escape" and isinstance(n.func.value, ast.Name) and n.func.value.id == "re" for n in ast.walk(fn))
+    emit(f"def escape_uses_re_escape : Bool := {'true' if uses_re_escape else 'false'}")
+    fn = find_func(tree, "unescape")
+    subs = [n for n in ast.walk(fn) if isinstance(n, ast.Call) and isinstance(n.func, ast.Attribute) and n.func.attr == "sub" and isinstance(n.func.value, ast.Name) and n.func.value.id == "re"]
+    if len(subs) != 1 or len(subs[0].args) < 3 or not all(isinstance(a, ast.Constant) for a in subs[0].args[:2]):
+        raise ExtractError("unescape: the re.sub call was not found")
+    emit(f"def unescape_pattern : List Char := {lean_str(subs[0].args[0].value)}")
+    emit(f"def unescape_repl : List Char := {lean_str(subs[0].args[1].value)}")
+    dotall = any(kw.arg == "flags" and isinstance(kw.value, ast.Attribute) and kw.value.attr in ("DOTALL", "S") for kw in subs[0].keywords)
+    emit(f"def unescape_dotall : Bool := {'true' if dotall else 'false'}")
+    # re.escape of this interpreter, per character
+    special = [chr(o) for o in range(0, 128) if _re.escape(chr(o)) == "\\" + chr(o)]
+    for o in list(range(0, 128)) + [0xE9, 0x4E2D, 0x1F600]:
+        e = _re.escape(chr(o))
+        if e not in (chr(o), "\\" + chr(o)):
+            raise ExtractError(f"re.escape({chr(o)!r}) = {e!r}: neither the character nor its backslash escape")
+        if o >= 128 and e != chr(o):
+            raise ExtractError("re.escape escapes a non-ASCII character")
+    emit(f"def re_escape_chars : List Char := {lean_str(''.join(special))}")
+    # every parse entry point: bytes are decoded as UTF-8, anything else is TypeError
+    import datetime as _dt
+    K = F.dict2const({"%n": "d\u00e9v"}, "ProbeK")
+    G = F.make_group({"name": K, "serial": F.Serial})
+    entries = {
+        "serial": (lambda v: F.Serial.parse(v, "%n").value, "12"),
+        "datetime": (lambda v: F.Datetime.parse(v, "%Y").value, "2024"),
+        "naming": (lambda v: F.Naming.parse(v, "%n").value, "data engineer"),
+        "version": (lambda v: F.Version.parse(v, "%m.%n.%c").value, "1.2.3"),
+        "storage": (lambda v: F.Storage.parse(v, "%b").value, "8"),
+        "constant": (lambda v: K.parse(v, "%n").value, "d\u00e9v"),
+        "group": (lambda v: str(G.parse(v, "{name:%n}_{serial:%n}")), "d\u00e9v_7"),
+        "ver_base": (lambda v: str(V.BaseVersion.parse(v)), "1.2.3"),
+        "ver_sem": (lambda v: str(V.VersionSemver.parse(v)), "1.2.3-rc.1"),
+        "ver_pkg": (lambda v: str(V.VersionPackage.parse(v)), "1!1.2.3rc1"),
+    }
+    ok_bytes, ok_type = [], []
+    for name, (fn_, text) in entries.items():
+        want = fn_(text)
+        try:
+            if fn_(text.encode("utf-8")) == want:
+                ok_bytes.append(name)
+        except Exception:  # noqa: BLE001
+            pass
+        good = True
+        for wrong in (12, None, 1.5, ["x"], bytearray(b"12"), memoryview(b"12")):
+            try:
+                fn_(wrong)
+                good = False
+            except TypeError:
+                pass
+            except Exception:  # noqa: BLE001
+                good = False
+        if good:
+            ok_type.append(name)
+    emit(f"def entry_points : List (List Char) := {lean_list(list(entries))}")
+    emit(f"def entry_points_decode_bytes : List (List Char) := {lean_list(ok_bytes)}")
+    emit(f"def entry_points_type_error : List (List Char) := {lean_list(ok_type)}")
 
 
-FILES = {"versions": "Ver", "formatters": "Fmt", "assets": "Assets", "probes": "Assets"}
+SECTIONS = [("versions", extract_versions), ("formatters", extract_formatters), ("assets", extract_assets), ("probes", extract_probes), ("escape", extract_escape)]
+
+
+FILES = {"versions": "Ver", "formatters": "Fmt", "assets": "Assets", "probes": "Assets", "escape": "Esc"}
 
 
 def generate() -> dict[str, str]:
